@@ -1241,7 +1241,7 @@ func main() {
 			if tier == "thorough" {
 				return 40000
 			}
-			return 1600
+			return 1000
 		},
 		Run:         run,
 		CaseTimeout: 120 * time.Second,
